@@ -113,6 +113,58 @@ func boolCallEdges(b *ssa.BasicBlock, c ssa.Value) (onTrue, onFalse *ssa.BasicBl
 	return
 }
 
+// boolCallTrueEdge: the successor of b taken only when call c returned true — b tests c itself, or a conjunction
+// kept in a variable (x := a() && c(); if x): a phi whose other edges are the constant false and whose edge from c's
+// block is c, or which is reached only through c's own true edge.
+func boolCallTrueEdge(b *ssa.BasicBlock, c ssa.Value) (*ssa.BasicBlock, bool) {
+	if onT, _, ok := boolCallEdges(b, c); ok {
+		return onT, true
+	}
+	if len(b.Instrs) == 0 {
+		return nil, false
+	}
+	iff, isIf := b.Instrs[len(b.Instrs)-1].(*ssa.If)
+	if !isIf {
+		return nil, false
+	}
+	ph, ok := iff.Cond.(*ssa.Phi)
+	if !ok {
+		return nil, false
+	}
+	implied := false
+	for i, e := range ph.Edges {
+		if k, isK := e.(*ssa.Const); isK {
+			if k.Value == nil || k.Value.String() != "false" {
+				return nil, false
+			}
+			continue
+		}
+		// a non-constant edge: either c itself, or a value computed where c is already known true
+		if e == c {
+			implied = true
+			continue
+		}
+		pred := ph.Block().Preds[i]
+		cc, isCall := c.(*ssa.Call)
+		okVia := false
+		if isCall {
+			for _, tb := range cc.Parent().Blocks {
+				if onT, _, ok := boolCallEdges(tb, c); ok && edgeDominates(tb, onT, pred) {
+					okVia = true
+				}
+			}
+		}
+		if !okVia {
+			return nil, false
+		}
+		implied = true
+	}
+	if !implied {
+		return nil, false
+	}
+	return b.Succs[0], true
+}
+
 // guardDominates checks the template "a boolean check guards an action":
 // the result of `check` is branched on in its own block (or a successor
 // chain through boolean phis is NOT accepted); the action's block is
@@ -517,7 +569,7 @@ func ruleVerdict(w *World, r *Report, rule string, a *cmdAnchors, sk *itemSkelet
 				continue
 			}
 			for _, b := range f.Blocks {
-				onT, _, ok := boolCallEdges(b, c)
+				onT, ok := boolCallTrueEdge(b, c)
 				if ok && edgeDominates(b, onT, ret.Block()) {
 					// the receiver must be a Diff side
 					if ls, ok := leafCallsOf(c.Common().Args[0]); ok && len(ls) > 0 && calleeIs(ls[0].call, a.tslDiff) {
